@@ -315,8 +315,6 @@ def _track(plan: Dict[str, Any], spec: Dict[str, Any], original: Any, inputs: An
             res["notes"].append("several graphs compiled in one forward (graph break): metrics not compared")
             continue
         graph = tracked.scales_graph()
-        if graph is not obs["interp"].module.graph:
-            raise Violation("metrics", "scales_graph_is_not_the_executed_graph", where)
         nfloat = nbwd = 0
         for n in graph.nodes:
             if n.op == "output":
